@@ -146,6 +146,10 @@ def show(t, depth=0, maxdepth=6):
     return '**' + s(a[0])
   if k == 'unbound':
     return '<unbound>'
+  if k == 'bcast':
+    return s(a[0])
+  if k == 'meshgrid':
+    return f'meshgrid(*{s(a[0])})'
   return f'{k}{a!r}'
 
 
@@ -220,6 +224,18 @@ IDENTITY_CALLS = {
 }
 
 
+# Numeric helpers and configuration-dependent members that are kept as opaque
+# heads unless a rule asks for their inside.
+STD_OPAQUE = {
+    'dinosaur.jax_numpy_utils.shift', 'dinosaur.jax_numpy_utils.pad_in_dim',
+    'dinosaur.jax_numpy_utils.diff', 'dinosaur.jax_numpy_utils.cumsum',
+    'dinosaur.jax_numpy_utils.reverse_cumsum', 'dinosaur.jax_numpy_utils._dot_cumsum',
+    'dinosaur.jax_numpy_utils.sharded_einsum',
+    'dinosaur.spherical_harmonic.Grid.spherical_harmonics',
+    'dinosaur.spherical_harmonic.get_latitude_nodes',
+}
+
+
 class Options:
   """Per-analysis policy."""
 
@@ -233,6 +249,8 @@ class Options:
       identity_arrays=True,
       fold_consts=True,
       model_nonscalar=True,
+      model_vertical_padding=True,
+      std_opaque=True,
   ):
     self.max_depth = max_depth
     self.inline = inline  # callable(FuncInfo) -> bool, or None = everything
@@ -242,6 +260,9 @@ class Options:
     self.identity_arrays = identity_arrays
     self.fold_consts = fold_consts
     self.model_nonscalar = model_nonscalar
+    self.model_vertical_padding = model_vertical_padding
+    if std_opaque:
+      self.opaque |= STD_OPAQUE
 
   def may_inline(self, f: FuncInfo):
     q = f.qualname
@@ -791,7 +812,7 @@ class Evaluator:
   def unpack(self, v, n):
     if v.k in ('tuple', 'list') and len(v.a) == n:
       return list(v.a)
-    return [Term('sub', v, const(i)) for i in range(n)]
+    return [self.subscript(v, const(i)) for i in range(n)]
 
   def set_field(self, obj, name, v):
     if obj.k == 'obj':
@@ -1033,6 +1054,8 @@ class Evaluator:
         return Term(base.k, *base.a[s])
       except Exception:
         pass
+    if idx.k == 'const' and base.k == 'meshgrid' and isinstance(idx.a[0], int):
+      return Term('bcast', self.subscript(base.a[0], idx, node), idx.a[0])
     if idx.k == 'const' and base.k == 'mapover' and base.a[0].k in ('tuple', 'list'):
       inner = self.subscript(base.a[0], idx, node)
       return Term('mapover', inner, base.a[1], base.a[2])
@@ -1188,7 +1211,7 @@ class Evaluator:
     m = cls.find_method(name)
     if m is not None:
       if m.is_property():
-        if self.opt.may_inline(m) and self.can_enter(m, ctx):
+        if not is_abstract(m) and self.opt.may_inline(m) and self.can_enter(m, ctx):
           v = self.invoke(m, [base], [], ctx, node)
           return v
         rc = self.prog.resolve_class_expr(m.node.returns, m.module) if m.node.returns is not None else None
@@ -1420,7 +1443,9 @@ class Evaluator:
     opaque_term = callee_term if callee_term is not None else Term('func', fi.qualname)
     if fi.qualname == 'dinosaur.pytree_utils.tree_map_over_nonscalars' and self.opt.model_nonscalar and len(args) == 2 and not kwargs:
       return self.tree_map(args[0], [args[1]], {}, ctx, node)
-    if not self.opt.may_inline(fi) or not self.can_enter(fi, ctx):
+    if fi.qualname == 'dinosaur.spherical_harmonic._with_vertical_padding' and self.opt.model_vertical_padding and args:
+      return args[0]
+    if is_abstract(fi) or not self.opt.may_inline(fi) or not self.can_enter(fi, ctx):
       return mk_call(opaque_term, args, kwargs, cls=self.return_class(fi), loc=loc)
     return self.invoke(fi, args, kwargs, ctx, node, cenv=cenv, opaque_term=opaque_term)
 
@@ -1517,7 +1542,7 @@ class Evaluator:
     if n == 'dinosaur.pytree_utils.tree_map_over_nonscalars':
       pass
     if n == 'len' and len(args) == 1:
-      if args[0].k in ('tuple', 'list', 'set', 'dict') and not any(isinstance(x, Term) and x.k == 'star' for x in args[0].a):
+      if args[0].k in ('tuple', 'list') and not any(isinstance(x, Term) and x.k == 'star' for x in args[0].a):
         return const(len(args[0].a))
       if args[0].k == 'const' and isinstance(args[0].a[0], (str, tuple)):
         return const(len(args[0].a[0]))
@@ -1579,11 +1604,30 @@ class Evaluator:
         for x in items[1:]:
           acc = self.binop('+', acc, x)
         return acc
+    if n in ('any', 'all') and len(args) == 1:
+      items = self.iter_items(args[0])
+      if items is not None:
+        ts = [self.truth(x) for x in items]
+        if n == 'any':
+          if any(t is True for t in ts):
+            return TRUE
+          if all(t is False for t in ts):
+            return FALSE
+        else:
+          if any(t is False for t in ts):
+            return FALSE
+          if all(t is True for t in ts):
+            return TRUE
     if n in ('min', 'max') and args and all(x.k == 'const' for x in args) and len(args) > 1:
       try:
         return const({'min': min, 'max': max}[n](*[x.a[0] for x in args]))
       except Exception:
         pass
+    if n == 'numpy.meshgrid' and dict(kwargs).get('indexing') == const('ij'):
+      if len(args) == 1 and args[0].k == 'star':
+        return Term('meshgrid', args[0].a[0], loc=loc)
+      if args and not any(x.k == 'star' for x in args):
+        return Term('tuple', *[Term('bcast', x, i) for i, x in enumerate(args)])
     if n == 'slice':
       if len(args) == 1:
         return Term('slice', NONE, args[0], NONE)
@@ -1679,6 +1723,13 @@ _BUILTINS = {
     'frozenset', 'bytes', 'complex', 'id', 'issubclass', 'property', 'staticmethod', 'classmethod',
     'Ellipsis', 'NotImplemented', 'IndexError', 'StopIteration', 'vars', 'dir', 'open', 'format',
 }
+
+
+def is_abstract(f: FuncInfo):
+  body = [st for st in f.body if not (isinstance(st, ast.Expr) and isinstance(st.value, ast.Constant))]
+  if len(body) == 1 and isinstance(body[0], ast.Raise):
+    return 'NotImplementedError' in unparse(body[0])
+  return False
 
 
 def _fold_bin(op, a, b):
